@@ -2042,8 +2042,13 @@ impl OutstationSession {
                     series.ecsn.increment();
                     let (response, next) =
                         self.format_read_response(database, false, series.ecsn, Iin2::default());
-                    self.write_solicited(io, writer, respond_to, response, database)
+                    let response = self
+                        .write_solicited(io, writer, respond_to, response, database)
                         .await?;
+                    // a repeat of the READ during this fragment's confirm wait echoes this fragment
+                    if let Some(last) = self.state.last_valid_request.as_mut() {
+                        last.response = Some(response);
+                    }
                     match next {
                         None => return Ok(()),
                         Some(next) => {
